@@ -292,6 +292,13 @@ def main():
     rows = []
     pts = [ref.mul(rng.randrange(1, N)) for _ in range(3)]
     pairs = [(pts[0], pts[1]), (pts[0], pts[0]), (pts[1], ref.neg(pts[1])), (pts[2], None), (None, pts[0]), (None, None), (ref.G, ref.mul(2)), (ref.G, ref.neg(ref.G))]
+    # finite points with a zero coordinate: x = 0 gives (0, +-sqrt(b)) (p = 3 mod 4); no point has y = 0 (odd prime order).  They are the only
+    # finite points on which a test of X, instead of Z, for zero can be told from the infinity test (seed C15_j), and the only ones whose
+    # projective X is zero in every representative; pairs that *produce* them (Z0 - Q, Q) are included so arithmetic reaches them with Z != 1.
+    y0 = pow(ref.B, (P + 1) // 4, P)
+    assert y0 * y0 % P == ref.B
+    Z0, Z0n = (0, y0), (0, P - y0)
+    pairs += [(Z0, pts[0]), (Z0, Z0), (Z0, Z0n), (Z0n, None), (None, Z0), (ref.add(Z0, ref.neg(pts[1])), pts[1]), (ref.add(Z0n, ref.neg(ref.G)), ref.G)]
 
     def enc(pt):
         return [0] if pt is None else [4] + b32(pt[0]) + b32(pt[1])
